@@ -490,20 +490,21 @@ theorem sigs_verified_are_signers (ch : TxChain) (tx : Tx) (ver : List Name) (h 
 
 /-- The access-control content of an accepted transaction.  If `verifyTx` accepts (possibly under read faults) then
 (1) the signatures passed with some verified set `ver` (see `sigs_verified_are_signers`); (2) EVERY token input is owned
-by a verified key or by an account with a stored, readable rule that AuthRequire satisfies (`SpecAccount`); (3) the rule
-of the called contract method is satisfied by the initiator address and AuthRequire (`SpecMethod`); (4) every write to
-an ACL bucket is authorised by the rule in force of the owning account, and a method rule can only be written when the
-contract's owner entry is confirmed and has no unconfirmed overwrite. -/
+by a verified key or by an account with a stored, readable rule that AuthRequire satisfies (`SpecAccount`); (3) for
+EVERY contract request the rule of the called method is satisfied by the initiator address and AuthRequire
+(`SpecMethod`); (4) every write to an ACL bucket, of whichever request, is authorised by the rule in force of the owning
+account, and a method rule can only be written when the contract's owner entry is confirmed and has no unconfirmed
+overwrite. -/
 theorem verifyTx_sound (ch : TxChain) (hwf : EnvWF ch.env) (hmr : RuleWF ch.mrule) (tx : Tx)
     (h : verifyTx ch tx = true) :
     ∃ ver, verifySigs ch tx = some ver ∧
       (∀ k, Name.key k ∈ tx.inputs → Name.key k ∈ ver) ∧
       (∀ a, Name.acct a ∈ tx.inputs →
         ch.env (.acct a) ≠ none ∧ SpecAccount ch.env (maxLen tx.auth) (.acct a) tx.auth) ∧
-      (tx.act ≠ .transfer →
-        SpecMethod ch.env (maxLen (authUsers tx.init tx.auth)) (methodRuleOf ch tx.act) (authUsers tx.init tx.auth)) ∧
-      (∀ a, (tx.act = .setAcl a ∨ tx.act = .newAcc a) → SpecAccount ch.env (maxLen tx.auth) a tx.auth) ∧
-      (∀ c, tx.act = .setMethod c → ch.pendOwner c = false ∧
+      (∀ act ∈ tx.acts,
+        SpecMethod ch.env (maxLen (authUsers tx.init tx.auth)) (methodRuleOf ch act) (authUsers tx.init tx.auth)) ∧
+      (∀ a, (Act.setAcl a ∈ tx.acts ∨ Act.newAcc a ∈ tx.acts) → SpecAccount ch.env (maxLen tx.auth) a tx.auth) ∧
+      (∀ c, Act.setMethod c ∈ tx.acts → ch.pendOwner c = false ∧
         ∃ o, ch.owner c = some o ∧ SpecAccount ch.env (maxLen tx.auth) o tx.auth) := by
   unfold verifyTx at h
   cases hs : verifySigs ch tx with
@@ -526,7 +527,7 @@ theorem verifyTx_sound (ch : TxChain) (hwf : EnvWF ch.env) (hmr : RuleWF ch.mrul
         · exact ((identifyAccountF_iff _ _ _ _).1 h2).2
       have hwr := verifyWritesG_sound (fun a => identifyAccountF ch.bad ch.env a tx.auth) (ownerInForce ch)
         (fun a => identifyAccount ch.env a tx.auth = true)
-        (fun a ha => ((identifyAccountF_iff _ _ _ _).1 ha).2) (writesOf tx.act) ver' hver' hrw
+        (fun a ha => ((identifyAccountF_iff _ _ _ _).1 ha).2) (tx.acts.flatMap writesOf) ver' hver' hrw
       refine ⟨ver, rfl, ?_, ?_, ?_, ?_, ?_⟩
       · intro k hk
         exact utxo_key_input_needs_signature ch tx.auth tx.inputs ver hsome k hk
@@ -535,30 +536,25 @@ theorem verifyTx_sound (ch : TxChain) (hwf : EnvWF ch.env) (hmr : RuleWF ch.mrul
         · obtain ⟨⟨k, hk⟩, _⟩ := hsig2 _ hv
           cases hk
         · exact utxo_account_input_needs_rule ch hwf tx.auth tx.inputs ver hsome a ha hv
-      · intro hne
-        have hperm : checkMethodPermF ch.bad ch.badM ch.env (methodRuleOf ch tx.act) (authUsers tx.init tx.auth) = true := by
-          unfold verifyContractPerm at hcp
-          cases hact : tx.act with
-          | transfer => exact absurd hact hne
-          | call => simpa [hact] using hcp
-          | setAcl a => simpa [hact] using hcp
-          | newAcc a => simpa [hact] using hcp
-          | setMethod c => simpa [hact] using hcp
+      · intro act hact
+        unfold verifyContractPerm at hcp
+        have hperm := List.all_eq_true.1 hcp act hact
         have hcm := ((checkMethodPermF_iff _ _ _ _ _).1 hperm).2.2
-        have hrwf : RuleWF (methodRuleOf ch tx.act) := by
-          cases hact : tx.act with
+        have hrwf : RuleWF (methodRuleOf ch act) := by
+          cases act with
           | call => simpa [methodRuleOf] using hmr
-          | transfer => intro ms theta hh; simp [methodRuleOf] at hh
           | setAcl a => intro ms theta hh; simp [methodRuleOf] at hh
           | newAcc a => intro ms theta hh; simp [methodRuleOf] at hh
           | setMethod c => intro ms theta hh; simp [methodRuleOf] at hh
         exact (eval_eq_spec_method ch.env hwf _ hrwf _ _ (Nat.le_refl _)).1 hcm
       · intro a ha
-        have : Write.account a ∈ writesOf tx.act := by
-          rcases ha with e | e <;> simp [e, writesOf]
+        have : Write.account a ∈ tx.acts.flatMap writesOf := by
+          rcases ha with e | e
+          · exact List.mem_flatMap.2 ⟨_, e, by simp [writesOf]⟩
+          · exact List.mem_flatMap.2 ⟨_, e, by simp [writesOf]⟩
         exact (eval_eq_spec ch.env hwf a tx.auth _ (Nat.le_refl _)).1 (hwr _ this)
       · intro c hc
-        have : Write.method c ∈ writesOf tx.act := by simp [hc, writesOf]
+        have : Write.method c ∈ tx.acts.flatMap writesOf := List.mem_flatMap.2 ⟨_, hc, by simp [writesOf]⟩
         obtain ⟨o, ho, hid⟩ := hwr _ this
         unfold ownerInForce at ho
         by_cases hp : ch.pendOwner c = true
@@ -619,21 +615,14 @@ theorem verifyTx_fault_never_grants (ch : TxChain) (tx : Tx) (h : verifyTx ch tx
       simp only [hs', hu', Bool.and_eq_true]
       constructor
       · unfold verifyContractPerm at hcp ⊢
-        have key : ∀ act, checkMethodPermF ch.bad ch.badM ch.env (methodRuleOf ch act) (authUsers tx.init tx.auth) = true →
-            checkMethodPermF ch'.bad ch'.badM ch'.env (methodRuleOf ch' act) (authUsers tx.init tx.auth) = true := by
-          intro act hh
-          obtain ⟨_, h2, h3⟩ := fault_never_grants_method _ _ _ _ _ hh
-          rw [checkMethodPermF_iff]
-          refine ⟨rfl, fun _ _ => rfl, ?_⟩
-          have : methodRuleOf ch' act = methodRuleOf ch act := by cases act <;> rfl
-          rw [this]
-          exact h3 env' hag
-        cases hact : tx.act with
-        | transfer => rfl
-        | call => simpa [hact, ch'] using key .call (by simpa [hact] using hcp)
-        | setAcl a => simpa [hact, ch'] using key (.setAcl a) (by simpa [hact] using hcp)
-        | newAcc a => simpa [hact, ch'] using key (.newAcc a) (by simpa [hact] using hcp)
-        | setMethod c => simpa [hact, ch'] using key (.setMethod c) (by simpa [hact] using hcp)
+        rw [List.all_eq_true] at hcp ⊢
+        intro act hact
+        obtain ⟨_, h2, h3⟩ := fault_never_grants_method _ _ _ _ _ (hcp act hact)
+        rw [checkMethodPermF_iff]
+        refine ⟨rfl, fun _ _ => rfl, ?_⟩
+        have : methodRuleOf { ch.clean with env := env' } act = methodRuleOf ch act := by cases act <;> rfl
+        rw [this]
+        exact h3 env' hag
       · unfold verifyRW at hrw ⊢
         have : ownerInForce ch' = ownerInForce ch := rfl
         exact verifyWritesG_mono _ _ _ (fun a ha => hidt a tx.auth ha) _ _ hrw
@@ -656,22 +645,22 @@ def chainDemo : TxChain := {
   pendOwner := fun _ => false,
   mrule := some (.thr [(.key 2, 4)] 4),
   bad := fun _ => false,
-  badM := false }
+  badM := fun _ => false }
 
 /-- key 0 pays with an own output first and an output of account 0 second -/
 def txSteal : Tx :=
   { init := .key 0, isig := [some (.key 0)], auth := [[.key 0]], usig := [some (.key 0)],
-    inputs := [.key 0, .acct 0], act := .transfer }
+    inputs := [.key 0, .acct 0], acts := [] }
 
 /-- the same with key 1, the member of the account's rule, signing for the account -/
 def txGood : Tx :=
   { init := .key 0, isig := [some (.key 0)], auth := [[.acct 0, .key 1]], usig := [some (.key 1)],
-    inputs := [.key 0, .acct 0, .key 0, .acct 0], act := .transfer }
+    inputs := [.key 0, .acct 0, .key 0, .acct 0], acts := [] }
 
 /-- key 0 tries to rewrite the rule of account 0 -/
 def txTakeover : Tx :=
   { init := .key 0, isig := [some (.key 0)], auth := [[.acct 0, .key 0]], usig := [some (.key 0)],
-    inputs := [], act := .setAcl (.acct 0) }
+    inputs := [], acts := [.setAcl (.acct 0)] }
 
 example : verifyTx chainDemo txSteal = false ∧ verifyTx chainDemo txGood = true ∧
     verifyTx chainDemo txTakeover = false ∧
@@ -679,11 +668,15 @@ example : verifyTx chainDemo txSteal = false ∧ verifyTx chainDemo txGood = tru
     -- a signature that is not the last component's own does not verify the uri
     verifyTx chainDemo { txGood with usig := [some (.key 0)] } = false ∧
     -- the method rule (key 2) and the owner of contract 0 (account 0, i.e. key 1)
-    verifyTx chainDemo { txGood with inputs := [], act := .call } = false ∧
-    verifyTx chainDemo { txGood with inputs := [], act := .call, auth := [[.key 2]], usig := [some (.key 2)] } = true ∧
-    verifyTx chainDemo { txGood with inputs := [], act := .setMethod 0 } = true ∧
-    verifyTx chainDemo { txGood with inputs := [], act := .setMethod 1 } = false ∧
-    verifyTx { chainDemo with pendOwner := fun c => c == 0 } { txGood with inputs := [], act := .setMethod 0 } = false := by
+    verifyTx chainDemo { txGood with inputs := [], acts := [.call] } = false ∧
+    verifyTx chainDemo { txGood with inputs := [], acts := [.call], auth := [[.key 2]], usig := [some (.key 2)] } = true ∧
+    verifyTx chainDemo { txGood with inputs := [], acts := [.setMethod 0] } = true ∧
+    -- every request counts: the second one names a contract without owner entry, the third needs key 2
+    verifyTx chainDemo { txGood with inputs := [], acts := [.setMethod 0, .setMethod 1] } = false ∧
+    verifyTx chainDemo { txGood with inputs := [], acts := [.setMethod 0, .setAcl (.acct 0), .call] } = false ∧
+    verifyTx chainDemo { txGood with inputs := [], acts := [.setMethod 0, .setAcl (.acct 0), .newAcc (.acct 2)] } = true ∧
+    verifyTx chainDemo { txGood with inputs := [], acts := [.setMethod 1] } = false ∧
+    verifyTx { chainDemo with pendOwner := fun c => c == 0 } { txGood with inputs := [], acts := [.setMethod 0] } = false := by
   decide
 
 /-- with the rule of account 0 unreadable nothing that needs it is accepted — neither the takeover (which would pass
